@@ -155,18 +155,36 @@ Fixpoint infer (t : ty) : option ty :=
 Definition mk_composite (n : ty) (s : ty) : ty :=
   if is_array_name n then TArr false s else TMap false s.
 
+(* func (t *Type) hasFixed() bool *)
+Fixpoint has_fixed (t : ty) : bool :=
+  match t with TArr f s | TMap f s => f || has_fixed s | _ => false end.
+
+(* func mergeFixed(t, t2 *Type) *Type *)
+Fixpoint merge_fixed (t t2 : ty) : ty :=
+  if negb (has_fixed t2) || ptr_eq t t2 then t
+  else if negb (has_fixed t) then t2
+  else match t, sub t2 with
+       | TArr f s, Some s2 => TArr (f || fixed t2) (merge_fixed s s2)
+       | TMap f s, Some s2 => TMap (f || fixed t2) (merge_fixed s s2)
+       | _, _ => t          (* t.Sub == nil || t2.Sub == nil || t == EMPTY_ARRAY || t == EMPTY_MAP *)
+       end.
+
 (* func combineTypes(types []*Type) *Type — one loop iteration.
    [comb sw a b]: combinedT and t are (a, b) when sw = false and (b, a) when
    sw = true (the recursive call combineTypes([]*Type{t.Sub, combinedT.Sub})
    swaps the roles; recursion is on [a] either way).  "return ANY_TYPE" is
    rendered as continuing with combinedT = ANY_TYPE, which is the same
    function (once combinedT is ANY_TYPE every later iteration keeps it or
-   returns ANY_TYPE).  None = nil dereference (GENERIC shapes only). *)
+   returns ANY_TYPE).  None = nil dereference (GENERIC shapes only: the
+   recursive call on a nil Sub evaluates t.Fixed / combinedT.Fixed on nil). *)
 Fixpoint comb (sw : bool) (a b : ty) {struct a} : option ty :=
   let c := if sw then b else a in
   let t := if sw then a else b in
-  if equals c t then Some c
-  else if fixed t || fixed c then Some TAny
+  if equals c t then Some (merge_fixed c t)
+  else if fixed t || fixed c then
+    (if fixed c && negb (fixed t) && accepts c t then Some c
+     else if fixed t && negb (fixed c) && accepts t c then Some t
+     else Some TAny)
   else if (is_array_name t || is_map_name t) && name_eqb (name t) (name c) then
     if is_empty t then Some c
     else if is_empty c then Some t
@@ -177,21 +195,9 @@ Fixpoint comb (sw : bool) (a b : ty) {struct a} : option ty :=
                           | Some s => Some (mk_composite t s)
                           | None => None
                           end
-             | None =>                        (* b GENERIC (Sub nil): inner call on (t.Sub, c.Sub) with one nil *)
-                 if sw then None              (* c = b: t' = c.Sub = nil, t'.Fixed dereferences nil *)
-                 else                         (* t = b: Equals(nil, a') false; a'.Fixed || nil.Fixed *)
-                   (if fixed a' then Some (mk_composite t TAny) else None)
-             end
-         | _ =>                               (* a GENERIC (Sub nil), b composite with Sub b' *)
-             match sub b with
-             | Some b' =>
-                 (* inner call: Equals(nil-or-b', …) is false; then [t'.Fixed || combinedT'.Fixed]
-                    where t' = c.Sub, combinedT' = t.Sub *)
-                 if sw then (* c = b, t = a: t' = b' , combinedT' = nil *)
-                   (if fixed b' then Some (mk_composite t TAny) else None)
-                 else None (* c = a: t' = nil *)
              | None => None
              end
+         | _ => None
          end
   else Some TAny.
 
@@ -211,23 +217,24 @@ Definition combine (ts : list ty) : option ty :=
 Inductive node : Set :=
 | NArrLit (t : ty) (els : list node)     (* *ArrayLiteral{T, Elements} *)
 | NMapLit (t : ty) (els : list node)     (* *MapLiteral{T, Pairs} (values in Order) *)
-| NBin (t : ty) (l r : node)             (* *BinaryExpression{T, Left, Right} *)
+| NBin (t : ty) (op : binop) (l r : node) (* *BinaryExpression{T, Op, Left, Right} *)
+| NSlice (t : ty) (l : node)             (* *SliceExpression{T, Left} (bounds are num nodes, never converted) *)
 | NGroup (e : node)                      (* *GroupExpression{Expr} *)
 | NAny (e : node)                        (* *Any{Value} *)
 | NLeaf (t : ty).                        (* every other expression node: Var, basic literals, FuncCall,
-                                            UnaryExpression, IndexExpression, SliceExpression, DotExpression,
+                                            UnaryExpression, IndexExpression, DotExpression,
                                             TypeAssertion — none is an inferrer or a composite literal *)
 
 (* Node.Type() *)
 Fixpoint node_type (n : node) : ty :=
   match n with
-  | NArrLit t _ | NMapLit t _ | NBin t _ _ | NLeaf t => t
+  | NArrLit t _ | NMapLit t _ | NBin t _ _ _ | NSlice t _ | NLeaf t => t
   | NGroup e => node_type e
   | NAny _ => TAny
   end.
 
 Definition is_inferrer (n : node) : bool :=
-  match n with NArrLit _ _ | NMapLit _ _ | NBin _ _ _ | NGroup _ => true | _ => false end.
+  match n with NArrLit _ _ | NMapLit _ _ | NBin _ _ _ _ | NGroup _ => true | _ => false end.
 
 Fixpoint map_opt {A B} (f : A -> option B) (l : list A) : option (list B) :=
   match l with
@@ -274,7 +281,7 @@ Fixpoint infer_node (n : node) : option node :=
                    end
       | None => None
       end
-  | NBin t l r => Some (if is_empty_arr t then NBin (TArr true TAny) l r else n)
+  | NBin t op l r => Some (if is_empty_arr t then NBin (TArr true TAny) op l r else n)
   | NGroup e =>
       if is_empty_arr (node_type e) then
         (if is_inferrer e then match infer_node e with Some e' => Some (NGroup e') | None => None end
@@ -282,6 +289,9 @@ Fixpoint infer_node (n : node) : option node :=
       else Some n
   | _ => Some n
   end.
+
+Definition is_plus (op : binop) : bool := match op with OpPlus => true | _ => false end.
+Definition is_asterisk (op : binop) : bool := match op with OpAsterisk => true | _ => false end.
 
 (* func wrapAny(val Node, targetType *Type) Node.  None = panic("internal error …"). *)
 Fixpoint wrap_any (val : node) (target : ty) {struct val} : option node :=
@@ -293,12 +303,14 @@ Fixpoint wrap_any (val : node) (target : ty) {struct val} : option node :=
   else if is_empty_arr vt then
     match val with
     | NArrLit _ els => Some (NArrLit target els)
-    | NBin _ l r =>
+    | NBin _ op l r =>
         match wrap_any l target with
-        | Some l' => match wrap_any r target with
-                     | Some r' => Some (NBin target l' r')
-                     | None => None
-                     end
+        | Some l' =>
+            if is_asterisk op then Some (NBin target op l' r)     (* [] * n: the right operand is the count *)
+            else match wrap_any r target with
+                 | Some r' => Some (NBin target op l' r')
+                 | None => None
+                 end
         | None => None
         end
     | NGroup e => match wrap_any e target with Some e' => Some (NGroup e') | None => None end
@@ -348,6 +360,26 @@ Fixpoint wrap_any (val : node) (target : ty) {struct val} : option node :=
           | None => None
           end
         else None
+    (* "Composite literals inside a grouping, concatenation, repetition or slice
+       are coerced like the literals themselves." *)
+    | NGroup e => match wrap_any e target with Some e' => Some (NGroup e') | None => None end
+    | NBin _ op l r =>
+        if is_array_name target && (is_plus op || is_asterisk op) then
+          match wrap_any l target with
+          | Some l' =>
+              if is_plus op then
+                match wrap_any r target with
+                | Some r' => Some (NBin target op l' r')
+                | None => None
+                end
+              else Some (NBin target op l' r)
+          | None => None
+          end
+        else None
+    | NSlice _ l =>
+        if is_array_name target then
+          match wrap_any l target with Some l' => Some (NSlice target l') | None => None end
+        else None
     | _ => None
     end.
 
@@ -358,7 +390,8 @@ Definition is_comparison (op : binop) : bool :=
 (* parseBinaryExpr: the T given to the BinaryExpression node *)
 Definition binary_node_type (op : binop) (lt rt : ty) : ty :=
   let exp := if is_comparison op then TBool else lt in
-  if is_empty_arr exp then rt else exp.
+  let t := if is_empty_arr exp && is_plus op then rt else exp in      (* array concatenation e.g. [] + [1 2] *)
+  if is_array_name t && fixed rt then fixed_type t else t.            (* [1] + nums: as rigid as nums *)
 
 (* validateBinaryType: true = no error appended *)
 Definition validate_binary (op : binop) (lt rt : ty) : bool :=
@@ -479,7 +512,7 @@ Fixpoint tc (e : expr) : outcome :=
                  end
           end
       end
-  | EMap els =>                                               (* parseMapLiteral (values taken in source order) *)
+  | EMap els =>                                               (* parseMapLiteral (value types combined in source Order) *)
       match seq_outcomes (map tc els) with
       | None => OCrash
       | Some None => ONil
@@ -500,10 +533,11 @@ Fixpoint tc (e : expr) : outcome :=
       bind_node (tc r) (fun rn re =>
         let lt := node_type ln in
         let rt := node_type rn in
-        ONode (NBin (binary_node_type op lt rt) ln rn) (le || re || negb (validate_binary op lt rt))))
+        ONode (NBin (binary_node_type op lt rt) op ln rn) (le || re || negb (validate_binary op lt rt))))
   | EUn op r =>                                               (* parseUnaryExpr *)
       bind_node (tc r) (fun rn re =>
-        ONode (NLeaf (node_type rn)) (re || negb (validate_unary op (node_type rn))))
+        if validate_unary op (node_type rn) then ONode (NLeaf (node_type rn)) re
+        else ONil)                                            (* "return nil // type error reported" *)
   | EGroup g =>                                               (* parseGroupedExpr *)
       bind_node (tc g) (fun gn ge => ONode (NGroup gn) ge)
   | EIndex l i =>                                             (* parseIndexOrSliceExpr *)
@@ -537,7 +571,7 @@ Fixpoint tc (e : expr) : outcome :=
                     let st := match so with Some (ONode n _) => Some (node_type n) | _ => None end in
                     let et := match eo with Some (ONode n _) => Some (node_type n) | _ => None end in
                     match slice_type lt st et with
-                    | Some t => ONode (NLeaf t) errs
+                    | Some t => ONode (NSlice t ln) errs
                     | None => ONil
                     end
                 end
